@@ -13,6 +13,6 @@ rc=$?
 git -C /repo checkout -- .
 git -C /repo clean -fdq -- . 2>/dev/null
 echo "seed=$D prop=$P tier=$T rc=$rc"
-grep -E "^PASS|^FAIL|INFRASTRUCTURE|VIOLATION|KNOWN-FINDING" /tmp/try_seed.out | head -6
-grep "violation detail" /tmp/try_seed.out | head -2 | cut -c1-300
+grep -E "^PASS|^FAIL|INFRASTRUCTURE" /tmp/try_seed.out | head -2; echo "  violations: $(grep -c "^VIOLATION" /tmp/try_seed.out)"
+grep "violation detail" /tmp/try_seed.out | head -1 | cut -c1-260
 exit $rc
